@@ -3,6 +3,7 @@
 #include "world.h"
 
 #include "spqlios/arithmetic/vec_znx_arithmetic.h"
+#include "spqlios/coeffs/coeffs_arithmetic.h"
 #include "spqlios/cplx/cplx_fft.h"
 #include "spqlios/q120/q120_arithmetic.h"
 #include "spqlios/q120/q120_ntt.h"
@@ -91,6 +92,14 @@ const OpInfo op_info[OP_NOPS] = {
     {"q120x2_extract_1blk_from_q120c_ref", 2, "oi", L1, -1, OP_NONE, false},
     {"q120x2_extract_1blk_from_contiguous_q120b_ref", 2, "oi", L1, -1, OP_NONE, false},
     {"q120x2b_save_1blk_to_q120b_ref", 2, "xi", L1, -1, OP_NONE, false},
+    {"znx_add_i64_ref", 3, "oii", L1, -1, OP_NONE, false},
+    {"znx_add_i64_avx", 3, "oii", L1, -1, OP_NONE, false},
+    {"znx_sub_i64_ref", 3, "oii", L1, -1, OP_NONE, false},
+    {"znx_sub_i64_avx", 3, "oii", L1, -1, OP_NONE, false},
+    {"znx_negate_i64_ref", 2, "oi", L1, -1, OP_NONE, false},
+    {"znx_negate_i64_avx", 2, "oi", L1, -1, OP_NONE, false},
+    {"rnx_divide_by_m_ref", 2, "oi", L1, -1, OP_NONE, false},
+    {"rnx_divide_by_m_avx", 2, "oi", L1, -1, OP_NONE, false},
     // simple twins
     {"reim_fft_simple", 1, "x", S2, -1, OP_REIM_FFT, false},
     {"reim_ifft_simple", 1, "x", S2, -1, OP_REIM_IFFT, false},
@@ -328,6 +337,14 @@ void op_invoke(const Program& P, const Call& c, const std::vector<void*>& mods, 
     case OP_Q120X2_EXTRACT_C: q120x2_extract_1blk_from_q120c_ref(c.p[0], c.p[1], (q120x2c*)ptr[0], (const q120c*)ptr[1]); break;
     case OP_Q120X2_EXTRACT_CONTIG: q120x2_extract_1blk_from_contiguous_q120b_ref(c.p[0], c.p[2], c.p[1], (q120x2b*)ptr[0], (const q120b*)ptr[1]); break;
     case OP_Q120X2_SAVE: q120x2b_save_1blk_to_q120b_ref(c.p[0], c.p[1], (q120b*)ptr[0], (const q120x2b*)ptr[1]); break;
+    case OP_ZNX_ADD_REF: znx_add_i64_ref(c.p[0], (int64_t*)ptr[0], Z(1), Z(2)); break;
+    case OP_ZNX_ADD_AVX: znx_add_i64_avx(c.p[0], (int64_t*)ptr[0], Z(1), Z(2)); break;
+    case OP_ZNX_SUB_REF: znx_sub_i64_ref(c.p[0], (int64_t*)ptr[0], Z(1), Z(2)); break;
+    case OP_ZNX_SUB_AVX: znx_sub_i64_avx(c.p[0], (int64_t*)ptr[0], Z(1), Z(2)); break;
+    case OP_ZNX_NEG_REF: znx_negate_i64_ref(c.p[0], (int64_t*)ptr[0], Z(1)); break;
+    case OP_ZNX_NEG_AVX: znx_negate_i64_avx(c.p[0], (int64_t*)ptr[0], Z(1)); break;
+    case OP_RNX_DIV_REF: { double m; memcpy(&m, &c.p[1], 8); rnx_divide_by_m_ref(c.p[0], m, (double*)ptr[0], (const double*)ptr[1]); break; }
+    case OP_RNX_DIV_AVX: { double m; memcpy(&m, &c.p[1], 8); rnx_divide_by_m_avx(c.p[0], m, (double*)ptr[0], (const double*)ptr[1]); break; }
 
     case OP_REIM_FFT_SIMPLE: reim_fft_simple(sm, ptr[0]); break;
     case OP_REIM_IFFT_SIMPLE: reim_ifft_simple(sm, ptr[0]); break;
